@@ -20,6 +20,9 @@ type it interface {
 	Current() int
 }
 
+// auto holds the PRNG loop nests registered by the generated file auto_reg.go (absent = none).
+var auto = map[string]func(n int, first bool) it{}
+
 func rawFor(n int) it {
 	i := 0
 	return seq.Start(seq.For(func() bool { return i < n }, func() { i++ }, seq.Delay(func() seq.Seq[int] {
@@ -154,8 +157,12 @@ func main() {
 		fmt.Println("RESULT:" + string(bs))
 		return
 	default:
-		fmt.Println("unknown config")
-		os.Exit(2)
+		mk, ok := auto[*config]
+		if !ok {
+			fmt.Println("unknown config")
+			os.Exit(2)
+		}
+		g = mk(*n, *first)
 	}
 	yields := 0
 	for g.MoveNext() {
